@@ -6,7 +6,7 @@ must be an error, exactly the previous checkpoint, or exactly the new one. The b
 (file, phase) -> outcome classes it produces today are listed as known findings; anything else is a violation.
 SQLite back-end: an exception is injected at every traced line of its save (small and > 2 MB states) - the previous checkpoint
 must still load and equal the old state (or the new one if the fault came after the commit) - and the database file and its
-journal are snapshotted at every line and each snapshot loaded (error | old | new).
+journal are snapshotted at every line and each snapshot loaded: old | new (a transactional back-end must stay loadable).
 """
 from __future__ import annotations
 
@@ -337,12 +337,18 @@ def sqlite_cell(cell):
                         got = canon(list(sq.load_calibrator_state(sd)))
                     if got == old_k:
                         res["outcomes"].add(("sqlite-crash", "old"))
+                        res["stats"]["sqlite_crash_old"] = res["stats"].get("sqlite_crash_old", 0) + 1
                     elif got == new_k:
                         res["outcomes"].add(("sqlite-crash", "new"))
+                        res["stats"]["sqlite_crash_new"] = res["stats"].get("sqlite_crash_new", 0) + 1
                     else:
                         viol("sqlite:crash-hybrid", f"a process death before line event {i} leaves a database that loads as neither old nor new", dict(case, snap=i))
-                except Exception:  # noqa: BLE001
+                except Exception as e:  # noqa: BLE001
+                    # the transactional back-end: also a save cut short by a process death must leave the previous checkpoint loadable
+                    # (SQLite rolls a hot journal back when the file is opened again)
                     res["outcomes"].add(("sqlite-crash", "error"))
+                    res["stats"]["sqlite_crash_error"] = res["stats"].get("sqlite_crash_error", 0) + 1
+                    viol("sqlite:crash-leaves-unloadable", f"a process death before line event {i} ({where}) leaves a database (+ journal) that cannot be loaded any more: {type(e).__name__}: {e}", dict(case, snap=i))
                 shutil.rmtree(sd, ignore_errors=True)
             shutil.rmtree(w, ignore_errors=True)
         res["states"] = total
